@@ -88,7 +88,7 @@ def degenerate_case(case):
     ts = sorted(r.choice([0.0, 0.01, 0.02, 0.035, 0.05]) for _ in range(r.randint(1, 5)))
     tmax = r.choice(["default", 0.0, 0.02, 0.08])
     isp = r.choice(["auto", "none", "redist", "Poisson"])
-    kw = dict(system=system, t_sample=ts, time_step=0.01, sampling_policy=pol, sampling_interval=r.choice([0.005, 0.02]),
+    kw = dict(system=system, t_sample=ts, time_step=0.01, sampling_policy=pol, sampling_interval=r.choice([0.005, 0.02, 0.02, 1e-22, 1e-300]),
               rng_seed=r.randrange(2 ** 31), init_state_processing=isp)
     if tmax != "default":
         kw["t_max"] = tmax
